@@ -56,6 +56,17 @@ func c08Gen(t *rapid.T) C08Case {
 	k := rapid.IntRange(2, 4).Draw(t, "conns")
 	for i := 0; i < k; i++ {
 		var cmds []kit.Argv
+		if i < 2 && rapid.IntRange(0, 7).Draw(t, "alias") == 0 {
+			// a value copied or moved as a whole, then both names changed in place (by this connection and, with
+			// luck, by the other one at the same time): the two keys are independent from the copy on
+			src, dst := pick(t, "asrc", "a", "b", "s"), pick(t, "adst", "c", "a", "b")
+			cmds = append(cmds, kit.A("COPY", src, dst, "REPLACE"), kit.A("APPEND", src, "X"), kit.A("APPEND", dst, "Y"), kit.A(pick(t, "ard", []string{"GET", src}, []string{"MGET", src, dst}, []string{"STRLEN", src})...))
+			if rapid.Bool().Draw(t, "amore") {
+				cmds = append(cmds, kit.A("SETRANGE", dst, "0", "Q"), kit.A("GET", src))
+			}
+			c.Conns = append(c.Conns, cmds)
+			continue
+		}
 		for j := rapid.IntRange(2, 5).Draw(t, "cmds"); j > 0; j-- {
 			cmds = append(cmds, kit.A(c08Cmd(t, pad)...))
 		}
